@@ -905,6 +905,11 @@ class Process(StateMachine, persistence.Savable, metaclass=ProcessStateMachineMe
             msg_txt = msg[MESSAGE_TEXT_KEY] or ''
 
         self.set_status(msg_txt)
+
+        # The kill may have been triggered by the future being cancelled (see ``init``), in which case the future is
+        # already done: as in ``on_except``, replace it before setting the exception or ``asyncio`` will raise.
+        if self.future().done():
+            self._future = persistence.SavableFuture(loop=self._loop)
         self.future().set_exception(exceptions.KilledError(msg_txt))
 
     @super_check
